@@ -56,7 +56,8 @@ PROOFS = [
     Proof('qrwlock/lock_dispatch', 'rw.c', 'h_q_lock', kind='L', min_obligations=3),
     Proof('lemma/exclusion', 'rw.c', 'lemma_rw_exclusion', kind='L', min_obligations=1, backend='cadical'),
 ]
-NATIVES = []
+NATIVES = [Native('native', 'native.cpp', args_quick=[400], args_thorough=[20000], timeout=3000, link_photon=True, cxxflags=['-fpermissive'])]
+REPLAY = 'native'
 AUX_VIOLATION = True    # no native oracle: a failing loop-rule obligation is reported (no-failing-input-found), see DESIGN §4
 TRUSTED = ['cbmc 6.11.0', 'lowering rules of specs/C06/spec.py']
 NOT_DECIDED = ['admission after the last unlock as a liveness property (wake-up delivery)', 'timeouts racing with admission across context switches',
